@@ -41,7 +41,7 @@ def exhaustive(tier):
 
 
 def required_cells(tier):
-    return ["alias:chain-1", "alias:chain-2", "alias:chain-3", "alias:cycle", "alias:dangling", "alias:self", "action:append_const",
+    return ["alias:chain-1", "alias:chain-2", "alias:chain-3", "alias:cycle", "alias:dangling", "alias:self", "alias:chain>=15", "alias:long-cycle", "name:dotted", "action:append_const",
             "action:store_split", "action:extend_match", "extend_match:override", "extend_match:no-override", "rule:two-flags",
             "pass-with-modes", "user-extends-builtin", "user-redefines-as-alias", "implicit==explicit", "alias==target",
             "repeat-parse", "implicit-option:attached-value", "builtin:gcc", "builtin:clang", "builtin:icx", "builtin:nvcc", "e2e:_OPENMP", "e2e:__CUDA_ARCH__",
@@ -178,6 +178,19 @@ def gen_config(rng):
     n = rng.randint(1, 3)
     for i in range(n):
         user[f"cc{i}"] = gen_compiler(f"c{i}")
+    if rng.random() < 0.4:
+        # executable names carrying versions, target triplets and dots; one name is the other's stem
+        for j, nm in enumerate(rng.sample(["gcc-4.8", "x86_64-linux-gnu-g++-12.2", "cc0.real", "tool.v1", "tool", "clang++-15", "a.b.c"],
+                                          rng.randint(1, 3))):
+            user[nm] = gen_compiler(f"d{j}")
+        cells.add("name:dotted")
+    if rng.random() < 0.2:
+        # a long, valid alias chain (ln0 -> ln1 -> ... -> cc0), optionally closed into a long cycle instead
+        ln = rng.choice([8, 15, 16, 17, 33])
+        closed = rng.random() < 0.3
+        for j in range(ln):
+            user[f"ln{j}"] = {"alias_of": f"ln{j + 1}" if j + 1 < ln else ("ln0" if closed else "cc0")}
+        cells.add("alias:long-cycle" if closed else "alias:chain>=15" if ln >= 15 else "alias:chain-3")
     # aliases
     x = rng.random()
     if x < 0.5:
@@ -509,8 +522,10 @@ E2E_USER = {
             "parser": [{"flags": ["-foffload", "--offload"], "action": "store_split", "sep": ",", "format": "off-$value", "dest": "passes"},
                        {"flags": ["-fextra"], "action": "append_const", "dest": "modes", "const": "extra"}],
             "modes": [{"name": "extra", "include_files": ["m.h"], "include_paths": ["modeinc"]}],
-            "passes": [{"name": "off-a", "include_files": ["a.h"]}, {"name": "off-b", "include_files": ["b.h"]},
-                       {"name": "off-c", "include_files": ["b.h"], "defines": ["TARGET_C"]}]},
+            # each pass also brings its own search directory holding a header of the same name
+            "passes": [{"name": "off-a", "include_files": ["a.h"], "include_paths": ["pa"]},
+                       {"name": "off-b", "include_files": ["b.h"], "include_paths": ["pb"]},
+                       {"name": "off-c", "include_files": ["b.h"], "defines": ["TARGET_C"], "include_paths": ["pb"]}]},
 }
 E2E_USER_SRC = """cbi_m_u_1;
 #ifdef TARGET_A
@@ -529,16 +544,28 @@ cbi_m_u_12;
 #if !defined(TARGET_A) && !defined(TARGET_B)
 cbi_m_u_16;
 #endif
+#if defined(TARGET_A) || defined(TARGET_B)
+#include <ph.h>
+#endif
+#ifdef PH_A
+cbi_m_u_22;
+#endif
+#ifdef PH_B
+cbi_m_u_25;
+#endif
 """
+assert all(ln == "cbi_m_u_%d;" % i for i, ln in enumerate(E2E_USER_SRC.split("\n"), 1) if ln.startswith("cbi_m_u_"))
 
 
 def end_to_end_user(ctx, config, builtin, work):
     """Passes / modes that differ only in include files or include paths: every pass must be preprocessed."""
     acc = ctx.acc
     d = os.path.join(work, "e2eu")
-    os.makedirs(os.path.join(d, "modeinc"), exist_ok=True)
+    for sub in ("modeinc", "pa", "pb"):
+        os.makedirs(os.path.join(d, sub), exist_ok=True)
     for name, text in (("a.h", "#define TARGET_A 1\n"), ("b.h", "#define TARGET_B 1\n"), ("m.h", "#define FROM_MODE 1\n"),
-                       ("modeinc/deep.h", "cbi_m_deep_1;\n"), ("src.c", E2E_USER_SRC)):
+                       ("modeinc/deep.h", "cbi_m_deep_1;\n"), ("pa/ph.h", "#define PH_A 1\n"), ("pb/ph.h", "#define PH_B 1\n"),
+                       ("src.c", E2E_USER_SRC)):
         with open(os.path.join(d, name), "w") as f:
             f.write(text)
     load_user(config, d, E2E_USER)
@@ -644,11 +671,15 @@ def run_shard(ctx):
                 acc.inconc("generated .cbi/config rejected: " + str(lev.errors()[:2])[:300])
                 continue
             compilers = ccmodel.merge(builtin, user)
-            names = list(user) + ["gcc", "nvcc", "icpx", "unknowncc"]
+            names = [n_ for n_ in user if not n_.startswith("ln")] + ["gcc", "nvcc", "icpx", "unknowncc", "cc0.exe", "gcc.real", "nvcc-12.4"]
             cmds = []
             for _ in range(b["cmds_per_config"]):
                 nm = r2.choice(names)
                 cmds.append((r2.choice(["", "/usr/bin/", "../bin/"]) + nm, gen_argv(r2, compilers, nm)))
+            for nm in user:
+                # every dotted name and both ends / the middle of a long alias chain are exercised
+                if "." in nm or (nm.startswith("ln") and nm in ("ln0", "ln1", "ln2", "ln9")):
+                    cmds.append((r2.choice(["", "/opt/x.y/bin/"]) + nm, gen_argv(r2, compilers, nm)))
             check_commands(ctx, config, builtin, user, cmds, cells, "R")
             relations(ctx, config, builtin, user, r2, cells)
             implicit_explicit(ctx, config, builtin, user, r2, work)
